@@ -67,7 +67,7 @@ def load(reg):
         params.update(extra_params)
         reg.contract("%s.__init__" % cls, params=params, requires=[PARENT_OK], may_raise=ANYERR, on_raise="any",
                      ensures=BASE_POST + extra_post + [valid % ("self", "self._value"), valid % ("self", "self._default_value")],
-                     exc_ensures=[PARENT_UNCHANGED], modifies=INITMOD, props=[], axiom_sets=("seqstr", "pmap"))
+                     exc_ensures=[PARENT_UNCHANGED], modifies=INITMOD, props=["C18"], axiom_sets=("seqstr", "pmap"))
     # Int / Float: bounds
     bounds = {"min_value": "obj", "max_value": "obj", "format_str": "obj"}
     bpost = ["same(self._min, num(min_value))", "same(self._max, num(max_value))"]
